@@ -35,7 +35,10 @@ func (lsm *LSM) NewIterators(opt *utils.Options) []utils.Iterator {
 	if mem != nil {
 		iter.iters = append(iter.iters, mem.NewIterator(opt))
 	}
-	for _, imm := range immutables {
+	// lsm.immutables is appended to on rotation (oldest first) and the merge iterator keeps
+	// the LEFT child on equal internal keys: list the newest immutable memtable first.
+	for i := len(immutables) - 1; i >= 0; i-- {
+		imm := immutables[i]
 		if imm == nil {
 			continue
 		}
